@@ -37,13 +37,14 @@ def touchPath (path : Str) : Imports → Imports
 def addLine (m : Imports) (line : Str × List Str) : Imports :=
   line.2.foldl (fun acc ty => insertImport line.1 ty acc) (touchPath line.1 m)
 
-/-- one import line → (path, types); `None` = the `unwrap()` on `split_once(" from ")` panics (export.rs:203-211) -/
+/-- one import line → (path, types); `None` = the `unwrap()` on `split_once(" } from ")` panics (export.rs).
+The line is cut at ` } from `: the text before it is a list of identifiers and cannot contain it (a type may be called `from`) -/
 def parseImportLine (line : Str) : Option (Str × List Str) :=
-  match splitOnce " from ".toList line with
+  match splitOnce " } from ".toList line with
   | none => none
   | some (imp, frm) =>
     let path := trimEndP (fun c => c = '"' || c = ';') (trimStartP (· = '"') frm)
-    let types := split ", ".toList (trimEndMatches " }".toList (trimStartMatches "import type { ".toList imp))
+    let types := split ", ".toList (trimStartMatches "import type { ".toList imp)
     some (path, types)
 
 /-- export.rs:224-240 -/
